@@ -20,6 +20,7 @@ import (
 	"go/ast"
 	"go/types"
 	"reflect"
+	"slices"
 	"strconv"
 
 	"go.uber.org/nilaway/config"
@@ -139,7 +140,8 @@ func createFakeFuncDecl(pass *analysishelper.EnhancedPass, funcLit *ast.FuncLit,
 		Name: ident,
 		Type: &ast.FuncType{
 			Params: &ast.FieldList{
-				List: append(funcLit.Type.Params.List, fakeFields...),
+				// The parameter list belongs to the shared syntax tree: extend a copy, never its backing array.
+				List: append(slices.Clip(funcLit.Type.Params.List), fakeFields...),
 			},
 		},
 		Body: funcLit.Body,
